@@ -169,6 +169,10 @@ def gen_scenario(rng, i):
         tried = rng.sample(lc.ENCS, rng.randint(1, 3))
     elif r < 0.5:
         explicit = rng.choice(lc.ENCS)
+    elif r < 0.56:
+        explicit = "utf-8-sig"                 # a codec that writes a signature once, at the start of the file
+    elif r < 0.6:
+        tried = ["utf-8-sig"] + rng.sample(lc.ENCS, 2)
     return {"fs": "native" if rng.random() < 0.5 else "memory", "ext": ext, "content": content, "content_label": label,
             "out": out, "bak": bak, "out_exists": rng.random() < 0.3, "tried": tried, "explicit": explicit,
             "edits": lc.gen_edits(rng, rng.choice([0, 0, 1, 2, 4, 8])), "outcome": "normal", "raise_at": 0, "fault": 0}
@@ -278,7 +282,8 @@ def run_c06(ctx):
         if "_harness_error" in r:
             raise core.MachineryError("scenario could not be run: %s" % r["_harness_error"])
         if r["det"] in lc.UNENCODABLE:
-            scs[rid] = dict(sc, edits=sc["edits"] + [["unencodable", "", lc.UNENCODABLE[r["det"]]]], unsavable="unencodable")
+            place = ["value", "key", "chartfield", "chartextra", "notes"][rid % 5]
+            scs[rid] = dict(sc, edits=sc["edits"] + [["unencodable", place, lc.UNENCODABLE[r["det"]]]], unsavable="unencodable")
             rid += 1
         for k in range(1, r["_calls"] + 1):
             scs[rid] = dict(sc, fault=k)
